@@ -190,5 +190,111 @@ theorem col_if3_eq (S I D : List (List Int)) (Lx Ly : List Nat) (Sn : List Int) 
   · simp only [h, decide_false, Bool.false_eq_true, if_false]
     exact ⟨T, rfl⟩
 
+/-- **row 0 of a column** (`if i_start == 0 { … }`): `I[curr][0] = MIN_SCORE`; `D[curr][0]` = the deletion run `go + ge` (column 1) resp.
+the better of `go + ge·j` and `yclip_prefix + go + ge`; `S[curr][0]` = the better of that and `yclip_prefix`; the y-suffix tracker
+`Sn[0]` = the better of itself and `S[curr][0] + yclip_suffix`.  Nothing happens when row 0 is outside the band. -/
+theorem row0_eq (S I D : List (List Int)) (Lx Ly : List Nat) (Sn : List Int) (T : Tbm) (go ge : Int) (msc : Option (Int × Int))
+    (xp xs yp ys : Int) (bd : BandT) (k w : Nat) (m n j curr iStart : Nat) (hS : Arr S m) (hI : Arr I m) (hD : Arr D m)
+    (hc : curr < 2) (hsn : Sn.length = m + 1) (hly : Ly.length = m + 1) (hjn : j ≤ n) (hj31 : j < 2 ^ 31)
+    (o1 : Rs.InS 32 (go + ge)) (o2 : Rs.InS 32 (ge * (j : Int))) (o3 : Rs.InS 32 (go + ge * (j : Int))) (o4 : Rs.InS 32 (yp + go))
+    (o5 : Rs.InS 32 (yp + go + ge))
+    (o6 : Rs.InS 32 (go + ge + ys)) (o7 : Rs.InS 32 (go + ge * (j : Int) + ys)) (o8 : Rs.InS 32 (yp + go + ge + ys))
+    (o9 : Rs.InS 32 (yp + ys)) :
+    (iStart ≠ 0 → fillColumns_for1_if1 matchFn tbGet tbSet n j curr iStart (S, I, D, Lx, Ly, Sn, T, (go, ge, msc, xp, xs, yp, ys), bd, k, w) =
+      ok (S, I, D, Lx, Ly, Sn, T, (go, ge, msc, xp, xs, yp, ys), bd, k, w)) ∧
+    (iStart = 0 → ∃ d0 s0 Sn' Ly' T',
+      fillColumns_for1_if1 matchFn tbGet tbSet n j curr iStart (S, I, D, Lx, Ly, Sn, T, (go, ge, msc, xp, xs, yp, ys), bd, k, w) =
+        ok (wr S curr 0 s0, wr I curr 0 MIN, wr D curr 0 d0, Lx, Ly', Sn', T', (go, ge, msc, xp, xs, yp, ys), bd, k, w) ∧
+      d0 = (if j = 1 then go + ge else max (go + ge * (j : Int)) (yp + go + ge)) ∧ s0 = max d0 yp ∧
+      Sn'.length = Sn.length ∧ Sn'.getD 0 0 = max (Sn.getD 0 0) (s0 + ys) ∧ (∀ i, i ≠ 0 → Sn'.getD i 0 = Sn.getD i 0) ∧
+      Ly'.length = Ly.length) := by
+  have cS : curr < S.length := by rw [hS.1]; exact hc
+  have cI : curr < I.length := by rw [hI.1]; exact hc
+  have cD : curr < D.length := by rw [hD.1]; exact hc
+  have zS : 0 < (S.getD curr []).length := by rw [hS.2 curr hc]; omega
+  have zI : 0 < (I.getD curr []).length := by rw [hI.2 curr hc]; omega
+  have zD : 0 < (D.getD curr []).length := by rw [hD.2 curr hc]; omega
+  have zSn : 0 < Sn.length := by omega
+  have zLy : 0 < Ly.length := by omega
+  have cs31 : Rs.castSigned 32 j = (j : Int) := Rs.castSigned_of_lt (by simpa using hj31)
+  constructor
+  · intro h
+    unfold fillColumns_for1_if1
+    simp [h]
+  · intro h
+    subst h
+    -- after a write of `v` to `D[curr][0]` / `S[curr][0]` the code reads it back
+    have rbD : ∀ v, Rs.idx (D.set curr ((D.getD curr []).set 0 v)) curr = ok ((D.getD curr []).set 0 v) := fun v => by
+      rw [idx_getD _ curr [] (by rw [List.length_set]; exact cD), getD_set_self _ _ _ _ cD]
+    have rbD0 : ∀ v, Rs.idx ((D.getD curr []).set 0 v) 0 = ok v := fun v => by
+      rw [idx_getD _ 0 0 (by rw [List.length_set]; exact zD), getD_set_self _ _ _ _ zD]
+    have rbS : ∀ v, Rs.idx (S.set curr ((S.getD curr []).set 0 v)) curr = ok ((S.getD curr []).set 0 v) := fun v => by
+      rw [idx_getD _ curr [] (by rw [List.length_set]; exact cS), getD_set_self _ _ _ _ cS]
+    have rbS0 : ∀ v, Rs.idx ((S.getD curr []).set 0 v) 0 = ok v := fun v => by
+      rw [idx_getD _ 0 0 (by rw [List.length_set]; exact zS), getD_set_self _ _ _ _ zS]
+    have fin : ∀ (F : Int) (d0 s0 : Int) (Sn' : List Int) (Ly' : List Nat) (T' : Tbm), s0 = max d0 yp →
+        d0 = F →
+        Sn'.length = Sn.length → Sn'.getD 0 0 = max (Sn.getD 0 0) (s0 + ys) → (∀ i, i ≠ 0 → Sn'.getD i 0 = Sn.getD i 0) →
+        Ly'.length = Ly.length →
+        ∃ d0' s0' Sn'' Ly'' T'',
+          (ok (S.set curr ((S.getD curr []).set 0 s0), I.set curr ((I.getD curr []).set 0 MIN), D.set curr ((D.getD curr []).set 0 d0),
+            Lx, Ly', Sn', T', (go, ge, msc, xp, xs, yp, ys), bd, k, w) : Res (St Tbm)) =
+          ok (wr S curr 0 s0', wr I curr 0 MIN, wr D curr 0 d0', Lx, Ly'', Sn'', T'', (go, ge, msc, xp, xs, yp, ys), bd, k, w) ∧
+          d0' = F ∧ s0' = max d0' yp ∧
+          Sn''.length = Sn.length ∧ Sn''.getD 0 0 = max (Sn.getD 0 0) (s0' + ys) ∧ (∀ i, i ≠ 0 → Sn''.getD i 0 = Sn.getD i 0) ∧
+          Ly''.length = Ly.length :=
+      fun F d0 s0 Sn' Ly' T' a b c d e f => ⟨d0, s0, Sn', Ly', T', rfl, b, a, c, d, e, f⟩
+    unfold fillColumns_for1_if1
+    simp only [beq_self_eq_true, if_true, idx_getD I curr [] cI, ok_bind, Rs.setIdx_ok zI, Rs.setIdx_ok cI, pure_eq_ok,
+      bind_pure_comp, Rs.iadd_ok o1, cs31, Rs.imul_ok o2, Rs.iadd_ok o3, Rs.iadd_ok o4, Rs.iadd_ok o5,
+      idx_getD D curr [] cD, Rs.setIdx_ok zD, Rs.setIdx_ok cD, idx_getD S curr [] cS, Rs.setIdx_ok zS, Rs.setIdx_ok cS,
+      idx_getD Sn 0 0 zSn, Rs.setIdx_ok zSn, Rs.setIdx_ok zLy, Rs.sub_ok hjn, Functor.map, Res.bind]
+    have side : ∀ (v : Int), (Sn.set 0 v).length = Sn.length ∧ (Sn.set 0 v).getD 0 0 = v ∧
+        ∀ i, i ≠ 0 → (Sn.set 0 v).getD i 0 = Sn.getD i 0 :=
+      fun v => ⟨List.length_set, getD_set_self _ _ _ _ zSn, fun i hi => getD_set_ne _ _ _ _ _ (fun e => hi e.symm)⟩
+    by_cases hj1 : j = 1
+    · simp only [hj1, beq_self_eq_true, if_true, ok_bind, rbD, rbD0]
+      split <;> rename_i hS1 <;>
+        simp only [decide_eq_true_eq, gt_iff_lt, ge_iff_le] at hS1 <;>
+        simp only [ok_bind, rbD, rbD0, idx_getD S curr [] cS, Rs.setIdx_ok zS, Rs.setIdx_ok cS, rbS, rbS0, Rs.iadd_ok o6,
+          Rs.iadd_ok o9, idx_getD Sn 0 0 zSn] <;>
+        split <;> rename_i hT <;>
+        simp only [decide_eq_true_eq, gt_iff_lt, ge_iff_le] at hT <;>
+        simp only [ok_bind, rbS, rbS0, Rs.iadd_ok o6, Rs.iadd_ok o9, Rs.setIdx_ok zSn, Rs.sub_ok hjn, Rs.setIdx_ok zLy]
+      all_goals (refine fin _ _ _ _ _ _ ?_ ?_ ?_ ?_ ?_ ?_)
+      all_goals first
+        | omega
+        | rfl
+        | exact List.length_set
+        | exact (side _).1
+        | exact (side _).2.2
+        | (rw [(side _).2.1]; omega)
+        | (intro _ _; rfl)
+        | (simp [hj1]; done)
+        | (simp [hj1]; omega)
+    · have hj1' : (j == 1) = false := by simpa using hj1
+      simp only [hj1', Bool.false_eq_true, if_false]
+      split <;> rename_i hD1 <;>
+        simp only [decide_eq_true_eq, gt_iff_lt, ge_iff_le] at hD1 <;>
+        simp only [ok_bind, rbD, rbD0] <;>
+        split <;> rename_i hS1 <;>
+        simp only [decide_eq_true_eq, gt_iff_lt, ge_iff_le] at hS1 <;>
+        simp only [ok_bind, rbD, rbD0, idx_getD S curr [] cS, Rs.setIdx_ok zS, Rs.setIdx_ok cS, rbS, rbS0, Rs.iadd_ok o7,
+          Rs.iadd_ok o8, Rs.iadd_ok o9, idx_getD Sn 0 0 zSn] <;>
+        split <;> rename_i hT <;>
+        simp only [decide_eq_true_eq, gt_iff_lt, ge_iff_le] at hT <;>
+        simp only [ok_bind, rbS, rbS0, Rs.iadd_ok o7, Rs.iadd_ok o8, Rs.iadd_ok o9, Rs.setIdx_ok zSn, Rs.sub_ok hjn, Rs.setIdx_ok zLy]
+      all_goals (refine fin _ _ _ _ _ _ ?_ ?_ ?_ ?_ ?_ ?_)
+      all_goals first
+        | omega
+        | rfl
+        | exact List.length_set
+        | exact (side _).1
+        | exact (side _).2.2
+        | (rw [(side _).2.1]; omega)
+        | (intro _ _; rfl)
+        | (simp [hj1]; done)
+        | (simp [hj1]; omega)
+
 end
 end RbV.Thm.GenSrcBandedCols
